@@ -12,6 +12,12 @@ dst = os.path.join(VERIF, "seeded", f"{prop}-{suffix}")
 os.makedirs(dst, exist_ok=True)
 # the patch is re-taken from the worktree so that it is exactly what the tree contains
 diff = subprocess.run(["git", "-C", wt, "diff", "--", "src"], capture_output=True, text=True).stdout
+# .. unless the agent's own _seed/patch.diff differs (worktrees share one git stash: a stash/pop race can swap hunks between them) - then
+# the agent's file is what it confirmed
+own = os.path.join(src, "patch.diff")
+if os.path.isfile(own) and open(own).read().strip() != diff.strip():
+    print("NOTE: worktree diff differs from _seed/patch.diff; the agent's patch.diff is used")
+    diff = open(own).read()
 open(os.path.join(dst, "patch.diff"), "w").write(diff)
 demo = next(f for f in sorted(os.listdir(src)) if re.match(r"(demo|test_demo).*\.py$", f))
 txt = open(os.path.join(src, demo)).read().replace(wt, "/repo")
